@@ -11,9 +11,9 @@ Import ListNotations.
 Open Scope N_scope.
 
 (* ---- the monitor: its state is the reference state; its flags never go back to false ---- *)
-Lemma mon_step_st opts defaults m o : m_st (mon_step opts defaults m o) = spec_next opts defaults (m_st m) o.
+Lemma mon_base_st opts defaults m o : m_st (mon_base opts defaults m o) = spec_base opts defaults (m_st m) o.
 Proof.
-  destruct o; cbn [mon_step spec_next]; try reflexivity.
+  destruct o; cbn [mon_base mon_step_gen spec_base spec_next spec_next_gen m_st]; try reflexivity.
   - destruct (dfind_ci name opts) as [[cn k]|]; [|reflexivity]. destruct (spec_validate k v); reflexivity.
   - destruct (dfind_ci name opts) as [[cn k]|]; reflexivity.
   - destruct (s_pend (m_st m)) eqn:E; [|reflexivity].
@@ -21,22 +21,104 @@ Proof.
   - destruct (dfind_ci dst opts) as [[cd kd]|]; [|reflexivity]. destruct (dfind_ci src opts) as [[cs ks]|]; reflexivity.
 Qed.
 
-(* the two open finding classes and the envelope flag (a copy of an option with a pending change) *)
+Lemma mon_send_st rej mq :
+  m_st (fst (mon_send rej mq)) = m_st (fst mq) /\
+  snd (mon_send rej mq) = flight_send (m_st (fst mq)) (snd mq).
+Proof. unfold mon_send, flight_send. destruct (s_pend (m_st (fst mq))); auto. Qed.
+
+Lemma mon_dop_st opts defaults rej mq d :
+  m_st (fst (mon_dop opts defaults rej mq d)) = fst (dop_next opts defaults (m_st (fst mq), snd mq) d) /\
+  snd (mon_dop opts defaults rej mq d) = snd (dop_next opts defaults (m_st (fst mq), snd mq) d).
+Proof.
+  unfold mon_dop, dop_next. destruct (op_of_dop d) as [o|]; cbn [fst snd m_st].
+  - split; [apply mon_base_st|reflexivity].
+  - apply mon_send_st.
+Qed.
+
+Lemma mon_fold_st opts defaults rej : forall ds mq,
+  m_st (fst (fold_left (mon_dop opts defaults rej) ds mq)) = fst (fold_left (dop_next opts defaults) ds (m_st (fst mq), snd mq)) /\
+  snd (fold_left (mon_dop opts defaults rej) ds mq) = snd (fold_left (dop_next opts defaults) ds (m_st (fst mq), snd mq)).
+Proof.
+  induction ds as [|d ds IH]; intros mq; [auto|]. cbn [fold_left].
+  destruct (mon_dop_st opts defaults rej mq d) as [E1 E2].
+  destruct (IH (mon_dop opts defaults rej mq d)) as [I1 I2]. rewrite I1, I2, E1, E2.
+  destruct (dop_next opts defaults (m_st (fst mq), snd mq) d); auto.
+Qed.
+
+Lemma mon_step_st opts defaults m o : m_st (mon_step opts defaults m o) = spec_next opts defaults (m_st m) o.
+Proof.
+  destruct o as [? ?|? ?|?|?| |?| |? ?|rj dz];
+    try (match goal with |- m_st (mon_step _ _ _ ?o) = _ => exact (mon_base_st opts defaults m o) end).
+  cbn [mon_step mon_step_gen spec_next spec_next_gen]. unfold mon_flight, flight_next, flight_run. cbn [m_st].
+  destruct (mon_send_st rj (m, [])) as [S1 S2]. cbn [fst snd] in S1, S2.
+  destruct (mon_fold_st opts defaults rj dz (mon_send rj (m, []))) as [F1 F2].
+  rewrite F1, F2, S1, S2. reflexivity.
+Qed.
+
+
+
+(* the open finding classes and the envelope flag *)
 Definition flagged (m : mon) : bool := m_f1 m || m_f3 m || m_f4 m || m_fs m.
 
-Lemma mon_step_flag_mono opts defaults m o : flagged m = true -> flagged (mon_step opts defaults m o) = true.
+(* flags only ever go up *)
+Definition fle (m m' : mon) : Prop :=
+  (m_f1 m = true -> m_f1 m' = true) /\ (m_f3 m = true -> m_f3 m' = true) /\ (m_f4 m = true -> m_f4 m' = true) /\
+  (m_fs m = true -> m_fs m' = true).
+
+Ltac fle_tac := unfold fle; cbn [m_f1 m_f3 m_f4 m_fs fst snd]; repeat split; intros X; try rewrite X; try reflexivity; auto.
+
+Lemma fle_refl m : fle m m.
+Proof. fle_tac. Qed.
+Lemma fle_trans a b c : fle a b -> fle b c -> fle a c.
+Proof. intros [A1 [A2 [A3 A5]]] [B1 [B2 [B3 B5]]]. unfold fle. repeat split; auto. Qed.
+
+Lemma fle_flagged m m' : fle m m' -> flagged m = true -> flagged m' = true.
 Proof.
-  unfold flagged. intros H.
-  destruct o; cbn [mon_step]; try assumption.
-  - destruct (dfind_ci name opts) as [[cn k]|]; [|assumption]. destruct (spec_validate k v); exact H.
-  - destruct (dfind_ci name opts) as [[cn k]|]; [|assumption]. cbn [m_f1 m_f3 m_fs m_f4].
-    destruct (m_f1 m), (m_f3 m), (m_f4 m), (m_fs m); cbn in *; try discriminate; try reflexivity; now rewrite ?orb_true_r.
-  - destruct (s_pend (m_st m)); [assumption|]. cbn [m_f1 m_f3 m_fs m_f4].
-    destruct (m_f1 m), (m_f3 m), (m_f4 m), (m_fs m); cbn in *; try discriminate; try reflexivity; now rewrite ?orb_true_r.
-  - destruct (dfind_ci dst opts) as [[cd kd]|]; [|assumption]. destruct (dfind_ci src opts) as [[cs ks]|]; [|assumption].
-    cbn [m_f1 m_f3 m_fs m_f4].
-    destruct (m_f1 m), (m_f3 m), (m_f4 m), (m_fs m); cbn in *; try discriminate; try reflexivity; now rewrite ?orb_true_r.
+  intros [A1 [A2 [A3 A5]]]. unfold flagged. intros H.
+  repeat (apply orb_true_iff in H as [H|H]);
+    [rewrite (A1 H)|rewrite (A2 H)|rewrite (A3 H)|rewrite (A5 H)]; now rewrite ?orb_true_r.
 Qed.
+
+Lemma fle_flagged_false m m' : fle m m' -> flagged m' = false -> flagged m = false.
+Proof. intros L H. destruct (flagged m) eqn:E; [|reflexivity]. rewrite (fle_flagged _ _ L E) in H. discriminate. Qed.
+
+Lemma mon_base_fle opts defaults m o : fle m (mon_base opts defaults m o).
+Proof.
+  destruct o; cbn [mon_base mon_step_gen]; try apply fle_refl.
+  - destruct (dfind_ci name opts) as [[cn k]|]; [|apply fle_refl]. destruct (spec_validate k v); fle_tac.
+  - destruct (dfind_ci name opts) as [[cn k]|]; [|apply fle_refl]. fle_tac.
+  - destruct (s_pend (m_st m)); [apply fle_refl|]. fle_tac.
+  - fle_tac.
+  - destruct (dfind_ci dst opts) as [[cd kd]|]; [|apply fle_refl]. destruct (dfind_ci src opts) as [[cs ks]|]; [|apply fle_refl].
+    fle_tac.
+Qed.
+
+Lemma mon_send_fle rej mq : fle (fst mq) (fst (mon_send rej mq)).
+Proof. unfold mon_send. destruct (s_pend (m_st (fst mq))); [apply fle_refl|]. fle_tac. Qed.
+
+Lemma mon_dop_fle opts defaults rej mq d : fle (fst mq) (fst (mon_dop opts defaults rej mq d)).
+Proof.
+  unfold mon_dop. destruct (op_of_dop d) as [o|]; [|apply mon_send_fle].
+  eapply fle_trans; [apply (mon_base_fle opts defaults (fst mq) o)|]. fle_tac.
+Qed.
+
+Lemma mon_fold_fle opts defaults rej : forall ds mq, fle (fst mq) (fst (fold_left (mon_dop opts defaults rej) ds mq)).
+Proof.
+  induction ds as [|d ds IH]; intros mq; [apply fle_refl|]. cbn [fold_left].
+  eapply fle_trans; [apply mon_dop_fle|apply IH].
+Qed.
+
+Lemma mon_step_fle opts defaults m o : fle m (mon_step opts defaults m o).
+Proof.
+  destruct o as [? ?|? ?|?|?| |?| |? ?|rj dz];
+    try (match goal with |- fle _ (mon_step _ _ _ ?o) => exact (mon_base_fle opts defaults m o) end).
+  cbn [mon_step mon_step_gen]. unfold mon_flight.
+  eapply fle_trans; [apply (mon_send_fle rj (m, []))|].
+  eapply fle_trans; [apply (mon_fold_fle opts defaults rj dz)|]. fle_tac.
+Qed.
+
+Lemma mon_step_flag_mono opts defaults m o : flagged m = true -> flagged (mon_step opts defaults m o) = true.
+Proof. apply fle_flagged, mon_step_fle. Qed.
 
 Lemma mon_run_flag_mono opts defaults ops : forall m, flagged m = true -> flagged (mon_run opts defaults m ops) = true.
 Proof.
@@ -44,11 +126,174 @@ Proof.
   apply IH. now apply mon_step_flag_mono.
 Qed.
 
-Lemma not_flagged m : flagged m = false -> m_f1 m = false /\ m_f3 m = false /\ m_fs m = false /\ m_f4 m = false.
+Lemma not_flagged m : flagged m = false ->
+  m_f1 m = false /\ m_f3 m = false /\ m_fs m = false /\ m_f4 m = false.
 Proof.
-  unfold flagged. intros H. apply orb_false_iff in H as [H Hs]. apply orb_false_iff in H as [H H4].
-  apply orb_false_iff in H as [H1 H3]. auto.
+  unfold flagged. intros H. apply orb_false_iff in H as [H Hs].
+  apply orb_false_iff in H as [H H4]. apply orb_false_iff in H as [H1 H3]. auto.
 Qed.
+
+(* an operation that is not an OpSaveDuring: the general functions are the basic ones on it *)
+Definition plain (o : op) : bool := match o with OpSaveDuring _ _ => false | _ => true end.
+
+Lemma op_of_dop_plain d o : op_of_dop d = Some o -> plain o = true.
+Proof. destruct d; cbn; intros H; inversion H; reflexivity. Qed.
+
+Lemma plain_eqs opts defaults names o : plain o = true ->
+  (forall st, m_step_base names st o = m_step names st o) /\
+  (forall m, mon_base opts defaults m o = mon_step opts defaults m o) /\
+  (forall st ob, check_base opts defaults st o ob = spec_check opts defaults st o ob) /\
+  (forall st, spec_base opts defaults st o = spec_next opts defaults st o) /\
+  op_ok_base opts o = op_ok opts o.
+Proof. destruct o; try discriminate; intros _; repeat split. Qed.
+
+(* ---- small facts for OpSaveDuring ---- *)
+Lemma ires_roundtrip x r : ires_of_ores x = Some r -> ores_of_ires r = Some x.
+Proof. destruct x; cbn; intros H; inversion H; reflexivity. Qed.
+
+Lemma atom_eqb_refl a : atom_eqb a a = true.
+Proof. destruct a; cbn; try apply beqb_refl; try apply Z.eqb_refl. destruct b; reflexivity. Qed.
+
+Lemma ival_eqb_refl iv : ival_eqb iv iv = true.
+Proof.
+  destruct iv as [s|l]; cbn [ival_eqb]; [apply beqb_refl|].
+  induction l as [|a l IH]; [reflexivity|]. cbn. now rewrite atom_eqb_refl, IH.
+Qed.
+
+(* acknowledging exactly what is pending leaves nothing pending *)
+Lemma prune_self pend : NoDup (map fst pend) -> prune pend pend = [].
+Proof.
+  intros Hnd. unfold prune.
+  assert (forall l, (forall p, In p l -> In p pend) ->
+            filter (fun p : bytes * ival => negb match dget (fst p) pend with Some iv => ival_eqb iv (snd p) | None => false end) l = []) as H.
+  { induction l as [|[cn iv] l IH]; intros Hl; [reflexivity|]. cbn [filter fst snd].
+    rewrite (dget_first _ _ _ Hnd (Hl _ (or_introl eq_refl))), ival_eqb_refl. cbn [negb].
+    apply IH. intros p Hp. apply Hl. now right. }
+  apply H. auto.
+Qed.
+
+(* a monitor that differs only in the flags the relation does not look at *)
+Definition msame (m m' : mon) : Prop :=
+  m_st m' = m_st m /\ m_det m' = m_det m /\ m_f1 m' = m_f1 m /\ m_f3 m' = m_f3 m.
+
+Lemma Rel_msame opts defaults st m m' : Rel opts defaults st m -> msame m m' -> Rel opts defaults st m'.
+Proof.
+  intros R [E1 [E2 [E3 E4]]]. destruct m as [a d f1 f3 x y], m' as [a' d' f1' f3' x' y']. cbn in *. subst.
+  eapply Rel_flags_irrel. exact R.
+Qed.
+
+Lemma mon_dop_msame opts defaults rej mq d o :
+  op_of_dop d = Some o -> msame (mon_base opts defaults (fst mq) o) (fst (mon_dop opts defaults rej mq d)).
+Proof. intros E. unfold mon_dop. rewrite E. cbn [fst]. repeat split. Qed.
+
+(* ---- what an assignment / an in-place operation leaves alone (model only) ---- *)
+Lemma setattr_frame st name v st1 : m_setattr st name v = Ok st1 ->
+  m_config st1 = m_config st /\ forall k, k <> setattr_key st name -> dget k (m_unsaved st1) = dget k (m_unsaved st).
+Proof.
+  unfold m_setattr, setattr_key. intros H.
+  destruct (ci_eqb (find_real_name st name) hiddenservices_lc); [discriminate|].
+  destruct (dget (find_real_name st name) (m_parsers st)) as [[[pk vk] il]|]; [|discriminate].
+  destruct (validate vk v) as [v1|e|]; cbn [bind] in H; inversion H. cbn [with_unsaved m_config m_unsaved].
+  split; [reflexivity|]. intros k Hk. apply dget_dset_other. congruence.
+Qed.
+
+Lemma getattr_frame st name st1 rn g : m_getattr st name = Ok (st1, rn, g) ->
+  rn = find_real_name st name /\ m_unsaved st1 = m_unsaved st /\
+  forall k, k <> rn -> dget k (m_config st1) = dget k (m_config st).
+Proof.
+  unfold m_getattr. set (rn0 := find_real_name st name).
+  set (stx := if mem_bytes (lower rn0) (m_listp st) && negb (dmem rn0 (m_config st))
+              then with_config st (dset rn0 (CList true []) (m_config st)) else st).
+  assert (m_unsaved stx = m_unsaved st /\ forall k, k <> rn0 -> dget k (m_config stx) = dget k (m_config st)) as [Hu Hc].
+  { unfold stx. destruct (mem_bytes (lower rn0) (m_listp st) && negb (dmem rn0 (m_config st))); [|auto].
+    split; [reflexivity|]. intros k Hk. cbn [with_config m_config]. apply dget_dset_other. congruence. }
+  destruct (dget rn0 (m_config stx)) as [v|]; [|discriminate].
+  destruct v as [[s|z|b|t]|w l]; try (intros H; inversion H; subst; auto; fail).
+  destruct (beqb s DEFAULT_VALUE); [destruct (dget rn0 (m_defaults stx))|]; intros H; inversion H; subst; auto.
+Qed.
+
+Lemma listop_frame st name o st1 ex : m_listop st name o = Ok (st1, ex) ->
+  forall k, k <> find_real_name st name ->
+    dget k (m_config st1) = dget k (m_config st) /\ dget k (m_unsaved st1) = dget k (m_unsaved st).
+Proof.
+  intros H k Hk. unfold m_listop in H.
+  destruct (m_getattr st name) as [[[sg rn] g]|e|] eqn:EG; [|inversion H; subst; auto|discriminate].
+  destruct (getattr_frame _ _ _ _ _ EG) as [-> [Hu Hc]].
+  destruct g as [[a|w l]|[ds|dl]]; try discriminate; try (inversion H; subst; rewrite Hu; split; [now apply Hc|reflexivity]).
+  change on_modify_before_op with false in H. cbv iota in H.
+  destruct (py_list_op o l) as [l'|e]; [|inversion H; subst; rewrite Hu; split; [now apply Hc|reflexivity]].
+  cbv zeta in H.
+  match type of H with bind ?r _ = _ => destruct r as [s3|e|] eqn:EM end; cbn [bind] in H; try discriminate.
+  inversion H. subst s3 ex.
+  assert (dget k (m_config st1) = dget k (m_config st) /\ dget k (m_unsaved st1) = dget k (m_unsaved sg)) as [X Y].
+  { destruct (w && is_wrapped o).
+    - unfold mark_unsaved in EM.
+      destruct (negb (beqb (find_real_name (with_config sg (dset (find_real_name st name) (CList w l') (m_config sg))) (find_real_name st name)) (find_real_name st name))) eqn:En; [discriminate|].
+      apply negb_false_iff, beqb_eq in En. rewrite En in EM.
+      destruct (dmem (find_real_name st name) (m_config (with_config sg (dset (find_real_name st name) (CList w l') (m_config sg))))
+                && negb (dmem (find_real_name st name) (m_unsaved (with_config sg (dset (find_real_name st name) (CList w l') (m_config sg))))));
+        inversion EM; cbn [with_unsaved with_config m_config m_unsaved].
+      + split; [rewrite dget_dset_other by congruence; now apply Hc|apply dget_dset_other; congruence].
+      + split; [rewrite dget_dset_other by congruence; now apply Hc|reflexivity].
+    - inversion EM. cbn [with_config m_config m_unsaved]. split; [rewrite dget_dset_other by congruence; now apply Hc|reflexivity]. }
+  rewrite Hu in Y. auto.
+Qed.
+
+(* ---- association lists: filtering ---- *)
+Lemma atom_eqb_eq a b : atom_eqb a b = true -> a = b.
+Proof.
+  destruct a, b; cbn; try discriminate; intros H.
+  - apply beqb_eq in H. now subst.
+  - apply Z.eqb_eq in H. now subst.
+  - apply Bool.eqb_prop in H. now subst.
+  - apply beqb_eq in H. now subst.
+Qed.
+
+Lemma atom_list_eq : forall l l', list_eqb atom_eqb l l' = true -> l = l'.
+Proof.
+  induction l as [|a l IH]; destruct l' as [|b l']; cbn; try discriminate; [reflexivity|].
+  intros H. apply andb_true_iff in H as [H1 H2]. now rewrite (atom_eqb_eq _ _ H1), (IH _ H2).
+Qed.
+
+Lemma ival_eqb_eq a b : ival_eqb a b = true -> a = b.
+Proof.
+  destruct a, b; cbn; try discriminate; intros H; [apply beqb_eq in H|apply atom_list_eq in H]; now subst.
+Qed.
+
+Lemma dget_filter {A} (f : bytes * A -> bool) k : forall (l : list (bytes * A)), NoDup (map fst l) ->
+  dget k (filter f l) = match dget k l with Some v => if f (k, v) then Some v else None | None => None end.
+Proof.
+  induction l as [|[k0 v0] l IH]; [reflexivity|]. cbn [map fst filter]. intros Hnd. inversion Hnd as [|? ? Hn Hnd']. subst.
+  cbn [dget]. destruct (beqb k0 k) eqn:E.
+  - apply beqb_eq in E. subst k0. destruct (f (k, v0)) eqn:Ef; cbn [dget]; [now rewrite beqb_refl|].
+    rewrite (IH Hnd'). assert (dget k l = None) as -> by (apply dget_not_in; exact Hn). reflexivity.
+  - destruct (f (k0, v0)); cbn [dget]; [rewrite E|]; now apply IH.
+Qed.
+
+Lemma filter_keys_agree {A B} (f : bytes * A -> bool) (g : bytes * B -> bool) :
+  forall (l1 : list (bytes * A)) (l2 : list (bytes * B)),
+    map fst l1 = map fst l2 ->
+    (forall k u v, In (k, u) l1 -> In (k, v) l2 -> f (k, u) = g (k, v)) ->
+    NoDup (map fst l1) ->
+    map fst (filter f l1) = map fst (filter g l2).
+Proof.
+  induction l1 as [|[k u] l1 IH]; destruct l2 as [|[k' v] l2]; cbn [map fst]; intros Hk Hag Hnd; try discriminate; [reflexivity|].
+  injection Hk as Ek Hk. subst k'. inversion Hnd as [|? ? Hn Hnd']. subst.
+  cbn [filter]. rewrite (Hag k u v (or_introl eq_refl) (or_introl eq_refl)).
+  assert (map fst (filter f l1) = map fst (filter g l2)) as IH'.
+  { apply IH; [assumption| |assumption]. intros k0 u0 v0 H1 H2. apply Hag; now right. }
+  destruct (g (k, v)); cbn [map fst]; now rewrite IH'.
+Qed.
+
+Lemma dget_map_val {A B} (g : bytes * A -> B) k : forall (l : list (bytes * A)),
+  dget k (map (fun ku : bytes * A => (fst ku, g ku)) l) = match dget k l with Some u => Some (g (k, u)) | None => None end.
+Proof.
+  induction l as [|[k0 u0] l IH]; [reflexivity|]. cbn [map dget fst]. destruct (beqb k0 k) eqn:E; [|exact IH].
+  apply beqb_eq in E. now subst.
+Qed.
+
+Lemma filter_dmem_nil {A} (l : list bytes) : filter (fun cn => dmem cn (@nil (bytes * A))) l = [].
+Proof. induction l; [reflexivity|]. cbn. exact IHl. Qed.
 
 Section SimRun.
   Variable opts : list (bytes * kind).
@@ -59,14 +304,14 @@ Section SimRun.
   Variable names : list bytes.
   Hypothesis names_eq : names = map fst opts.
 
-  Lemma sim_step st m o st' ob :
-    Rel opts defaults st m -> op_ok opts o = true -> c10_op o = true ->
+  Lemma sim_step_base st m o st' ob :
+    Rel opts defaults st m -> op_ok opts o = true -> c10_op o = true -> plain o = true ->
     flagged (mon_step opts defaults m o) = false ->
     m_step names st o = Some (st', ob) ->
     step_ok opts defaults st m o st' ob.
   Proof.
-    intros R Hok Hc Hfl H. destruct (not_flagged _ Hfl) as [F1 [F3 [Fs F4]]].
-    destruct o; try discriminate Hc.
+    intros R Hok Hc Hpl Hfl H. destruct (not_flagged _ Hfl) as [F1 [F3 [Fs F4]]].
+    destruct o; try discriminate Hc; try discriminate Hpl.
     - eapply sim_assign; eassumption.
     - eapply sim_listop; eassumption.
     - eapply sim_save; eassumption.
@@ -75,23 +320,668 @@ Section SimRun.
     - eapply sim_copy; eassumption.
   Qed.
 
+  (* ================================================================ operations while a save is unanswered *)
+  Section Flight.
+    Variable allowed : op -> bool.
+    Hypothesis Hstep : forall st m o st' ob,
+      Rel opts defaults st m -> op_ok opts o = true -> allowed o = true -> plain o = true ->
+      flagged (mon_step opts defaults m o) = false ->
+      m_step names st o = Some (st', ob) -> step_ok opts defaults st m o st' ob.
+
+    Definition dop_allowed (d : dop) : bool :=
+      match op_of_dop d with Some o => op_ok_base opts o && allowed o | None => true end.
+
+    Definition outcome (rej : option N) (c : call) : sres :=
+      match c with CDone => SOk | CLine _ _ => match rej with None => SOk | Some code => SFail code end end.
+
+    (* the running invariant: the relation holds all along the flight (what the unanswered save has
+       sent is still pending on both sides); every save() call corresponds to a snapshot *)
+    Lemma sim_inner rej : forall ds st m q out st' rs cs out',
+      Rel opts defaults st m -> forallb dop_allowed ds = true ->
+      flagged (fst (fold_left (mon_dop opts defaults rej) ds (m, q))) = false ->
+      m_inner names st out ds = Some (st', rs, cs, out') ->
+      flight_inner_ok opts defaults (m_st m, q) ds rs = true /\
+      Rel opts defaults st' (fst (fold_left (mon_dop opts defaults rej) ds (m, q))) /\
+      (exists qn, snd (fold_left (mon_dop opts defaults rej) ds (m, q)) = q ++ qn /\
+                  lines_ok qn (call_lines cs) = true) /\
+      map (outcome rej) cs = flight_outs opts defaults rej (m_st m, q) ds.
+    Proof.
+      induction ds as [|d ds IH]; intros st m q out st' rs cs out' R Hal Hfl H; cbn [m_inner] in H.
+      - inversion H. subst. cbn [fold_left fst snd flight_inner_ok map flight_outs call_lines concat].
+        split; [reflexivity|]. split; [exact R|]. split; [exists []; split; [now rewrite app_nil_r|reflexivity]|reflexivity].
+      - cbn [forallb] in Hal. apply andb_true_iff in Hal as [Hd Hal]. cbn [fold_left] in Hfl |- *.
+        assert (flagged (fst (mon_dop opts defaults rej (m, q) d)) = false) as Hfl1.
+        { destruct (flagged (fst (mon_dop opts defaults rej (m, q) d))) eqn:E; [|reflexivity].
+          rewrite (fle_flagged _ _ (mon_fold_fle opts defaults rej ds _) E) in Hfl. discriminate. }
+        unfold dop_allowed in Hd. destruct (op_of_dop d) as [o|] eqn:Eo.
+        + (* an ordinary operation *)
+          apply andb_true_iff in Hd as [Hok Hall]. pose proof (op_of_dop_plain _ _ Eo) as Hpl.
+          destruct (plain_eqs opts defaults names o Hpl) as [Q1 [Q2 [Q3 [Q4 Q5]]]].
+          destruct (m_step_base names st o) as [[st1 ob]|] eqn:E; [|discriminate].
+          destruct (o_wrote ob) as [|w ws] eqn:Ew; [|discriminate].
+          destruct (ires_of_ores (o_res ob)) as [r|] eqn:Er; [|discriminate].
+          match type of H with match m_inner names st1 ?o1 ds with _ => _ end = _ =>
+            destruct (m_inner names st1 o1 ds) as [[[[st2 rs2] cs2] out2]|] eqn:E2 end; [|discriminate].
+          inversion H. subst st' rs cs out'.
+          rewrite Q1 in E. rewrite Q5 in Hok.
+          pose proof (mon_dop_msame opts defaults rej (m, q) d o Eo) as Hms. cbn [fst] in Hms.
+          assert (flagged (mon_step opts defaults m o) = false) as Hflo.
+          { rewrite <- Q2. destruct (flagged (mon_base opts defaults m o)) eqn:Ef; [|reflexivity].
+            assert (fle (mon_base opts defaults m o) (fst (mon_dop opts defaults rej (m, q) d))) as Hle
+              by (unfold mon_dop; rewrite Eo; fle_tac).
+            rewrite (fle_flagged _ _ Hle Ef) in Hfl1. discriminate. }
+          destruct (Hstep _ _ _ _ _ R Hok Hall Hpl Hflo E) as [Hchk R1].
+          rewrite <- Q2 in R1. pose proof (Rel_msame _ _ _ _ _ R1 Hms) as R1'.
+          assert (snd (mon_dop opts defaults rej (m, q) d) = q) as Hq by (unfold mon_dop; now rewrite Eo).
+          destruct (mon_dop opts defaults rej (m, q) d) as [m1 q1] eqn:Emd. cbn [fst snd] in *. subst q1.
+          destruct (IH st1 m1 q _ st2 rs2 cs2 out2 R1' Hal Hfl E2) as [I1 [I2 [I3 I4]]].
+          assert (m_st m1 = spec_base opts defaults (m_st m) o) as Hst1.
+          { destruct Hms as [Hs _]. rewrite Hs. apply mon_base_st. }
+          split; [|split; [exact I2|split; [exact I3|]]].
+          * cbn [flight_inner_ok]. rewrite Eo, (ires_roundtrip _ _ Er). cbn [fst]. rewrite Q3.
+            destruct ob as [wr re]. cbn [o_wrote o_res] in *. subst wr. rewrite Hchk. cbn [andb].
+            unfold dop_next. rewrite Eo. cbn [fst snd]. rewrite <- Hst1. exact I1.
+          * cbn [flight_outs]. rewrite Eo. cbn [app]. unfold dop_next. rewrite Eo. cbn [fst snd]. rewrite <- Hst1. exact I4.
+        + (* another save() *)
+          destruct (m_send st) as [[st1 c]|] eqn:E; [|discriminate].
+          match type of H with match m_inner names st1 ?o1 ds with _ => _ end = _ =>
+            destruct (m_inner names st1 o1 ds) as [[[[st2 rs2] cs2] out2]|] eqn:E2 end; [|discriminate].
+          inversion H. subst st' rs cs out'.
+          assert (mon_dop opts defaults rej (m, q) d = mon_send rej (m, q)) as Emd by (unfold mon_dop; now rewrite Eo).
+          rewrite Emd in *.
+          assert (has_empty_list (s_pend (m_st m)) = false) as Hne.
+          { destruct (not_flagged _ Hfl1) as [F1 _]. unfold mon_send in F1. cbn [fst] in F1.
+            destruct (s_pend (m_st m)) as [|p0 pe]; [reflexivity|]. cbn [fst m_f1] in F1. now apply orb_false_iff in F1 as [_ F1]. }
+          pose proof (sim_send opts defaults opts_nodup opts_keys_ok st m st1 c R E Hne) as Hsend.
+          cbn [flight_inner_ok flight_outs]. rewrite !Eo. cbn [ores_of_ires]. unfold dop_next. rewrite Eo. cbn [fst snd andb].
+          unfold mon_send, flight_send, call_outcome in *. cbn [fst snd] in *.
+          destruct (s_pend (m_st m)) as [|p0 pe] eqn:Ep.
+          * destruct Hsend as [-> ->].
+            destruct (IH st m q _ st2 rs2 cs2 out2 R Hal Hfl E2) as [I1 [I2 [I3 I4]]].
+            split; [exact I1|]. split; [exact I2|]. split; [exact I3|]. cbn [map outcome app]. now rewrite I4.
+          * destruct Hsend as [line [-> [Hparse [R1 [_ _]]]]].
+            destruct (not_flagged _ Hfl1) as [F1 [F3 _]]. cbn [fst m_f1 m_f3] in F1, F3.
+            apply orb_false_iff in F1 as [F1 _].
+            assert (Rel opts defaults st1 {| m_st := m_st m; m_det := scalar_keys (p0 :: pe);
+                                             m_f1 := m_f1 m || has_empty_list (p0 :: pe); m_f3 := m_f3 m; m_fs := m_fs m;
+                                             m_f4 := m_f4 m || accepted rej && has_odd_list (p0 :: pe) |}) as R1'.
+            { rewrite F1, F3, Hne. cbn [orb]. eapply Rel_flags_irrel. exact R1. }
+            destruct (IH st1 _ (q ++ [p0 :: pe]) _ st2 rs2 cs2 out2 R1' Hal Hfl E2) as [I1 [I2 [[qn [I3 I3']] I4]]].
+            cbn [m_st] in I1, I4.
+            split; [exact I1|]. split; [exact I2|]. split.
+            { exists ((p0 :: pe) :: qn). split; [now rewrite I3, <- app_assoc|].
+              cbn [call_lines map concat app lines_ok]. rewrite Hparse.
+              rewrite (entries_match_self _ (eq_ind_r (fun l => nodup_ci (map fst l) = true) (pend_nodup_ci opts defaults opts_nodup _ _ R) (eq_sym Ep))).
+              exact I3'. }
+            cbn [map outcome app]. now rewrite I4.
+    Qed.
+    (* one ordinary operation during a flight *)
+    Lemma dop_step rej st m q d o st1 ob :
+      Rel opts defaults st m -> dop_allowed d = true -> op_of_dop d = Some o ->
+      flagged (fst (mon_dop opts defaults rej (m, q) d)) = false ->
+      m_step_base names st o = Some (st1, ob) ->
+      spec_check opts defaults (m_st m) o ob = true /\
+      Rel opts defaults st1 (fst (mon_dop opts defaults rej (m, q) d)) /\
+      msame (mon_step opts defaults m o) (fst (mon_dop opts defaults rej (m, q) d)) /\
+      snd (mon_dop opts defaults rej (m, q) d) = q /\
+      flagged (mon_step opts defaults m o) = false.
+    Proof.
+      intros R Hd Eo Hfl1 E. unfold dop_allowed in Hd. rewrite Eo in Hd.
+      apply andb_true_iff in Hd as [Hok Hall]. pose proof (op_of_dop_plain _ _ Eo) as Hpl.
+      destruct (plain_eqs opts defaults names o Hpl) as [Q1 [Q2 [Q3 [Q4 Q5]]]].
+      rewrite Q1 in E. rewrite Q5 in Hok.
+      pose proof (mon_dop_msame opts defaults rej (m, q) d o Eo) as Hms. cbn [fst] in Hms. rewrite Q2 in Hms.
+      assert (flagged (mon_step opts defaults m o) = false) as Hflo.
+      { rewrite <- Q2. destruct (flagged (mon_base opts defaults m o)) eqn:Ef; [|reflexivity].
+        assert (fle (mon_base opts defaults m o) (fst (mon_dop opts defaults rej (m, q) d))) as Hle
+          by (unfold mon_dop; rewrite Eo; fle_tac).
+        rewrite (fle_flagged _ _ Hle Ef) in Hfl1. discriminate. }
+      destruct (Hstep _ _ _ _ _ R Hok Hall Hpl Hflo E) as [Hchk R1].
+      split; [exact Hchk|]. split; [exact (Rel_msame _ _ _ _ _ R1 Hms)|]. split; [exact Hms|].
+      split; [unfold mon_dop; now rewrite Eo|exact Hflo].
+    Qed.
+
+    (* ---- an acknowledged save with assignments and in-place edits in between ----
+       the invariant kept while the save is unanswered: an option of the snapshot S that has not been
+       assigned since (not in T) is still the object that was sent -- a scalar unchanged and landed in
+       config, a list still the very list a read returns *)
+    Definition simple (d : dop) : bool := match d with DSave | DEvent _ => false | _ => true end.
+
+    Record FI (st : mst) (m : mon) (S : list (bytes * ival)) (T : list bytes) : Prop := {
+      fi_un : forall cn iv k, dget cn S = Some iv -> In (cn, k) opts -> mem_bytes cn T = false ->
+        match iv with
+        | IScalar s0 =>
+            dget cn (s_pend (m_st m)) = Some (IScalar s0) /\
+            exists a, atom_text a = s0 /\ dget cn (m_unsaved st) = Some (UVal (CAtom a)) /\
+                      exists pv, parse (pk_of k) (PAtom a) = Ok pv /\ dget cn (m_config st) = Some (cval_of_pyval true pv)
+        | IList _ =>
+            exists l', dget cn (s_pend (m_st m)) = Some (IList l') /\ dget cn (m_unsaved st) = Some UAlias /\
+                       dget cn (m_config st) = Some (CList true l')
+        end;
+      fi_mono : forall cn, dmem cn S = true -> dmem cn (s_pend (m_st m)) = true;
+      fi_det : forall cn s0, dget cn S = Some (IScalar s0) -> mem_bytes cn (m_det m) = true }.
+
+    (* the options assigned, as the Spec counts them *)
+    Definition spec_touch (st : ost) (d : dop) (T : list bytes) : list bytes :=
+      match d with
+      | DAssign name v =>
+          match dfind_ci name opts with
+          | Some (cn, k) => match spec_validate k v with Some _ => cn :: T | None => T end
+          | None => T
+          end
+      | _ => T
+      end.
+
+    Lemma FI_same st m m' S T : FI st m S T -> m_st m' = m_st m -> m_det m' = m_det m -> FI st m' S T.
+    Proof. intros [A B C] E1 E2. constructor; rewrite ?E1, ?E2; assumption. Qed.
+
+    Lemma FI_step st m S T d o st1 ob r :
+      Rel opts defaults st m -> FI st m S T -> simple d = true -> dop_allowed d = true -> op_of_dop d = Some o ->
+      flagged (fst (mon_dop opts defaults None (m, [S]) d)) = false ->
+      m_step_base names st o = Some (st1, ob) -> ires_of_ores (o_res ob) = Some r ->
+      let T' := match d, r with DAssign name _, IOk => setattr_key st name :: T | _, _ => T end in
+      FI st1 (fst (mon_dop opts defaults None (m, [S]) d)) S T' /\ T' = spec_touch (m_st m) d T.
+    Proof.
+      intros R HFI Hsim Hd Eo Hfl E Er T'.
+      destruct (dop_step None st m [S] d o st1 ob R Hd Eo Hfl E) as [Hchk [R1 [Hms [_ Hflo]]]].
+      destruct Hms as [M1 [M2 _]]. set (m1 := fst (mon_dop opts defaults None (m, [S]) d)) in *.
+      pose proof (mon_step_st opts defaults m o) as Hst. rewrite Hst in M1.
+      unfold dop_allowed in Hd. rewrite Eo in Hd. apply andb_true_iff in Hd as [Hok _].
+      destruct HFI as [Hun Hmono Hdet].
+      destruct d as [name v|name lo|name| | |items]; try discriminate Hsim; cbn [op_of_dop] in Eo; inversion Eo; subst o; clear Eo.
+      - (* assignment *)
+        cbn [op_ok_base op_ok_gen] in Hok. destruct (dfind_ci name opts) as [[cn0 k0]|] eqn:Hf; [|discriminate].
+        destruct (dfind_ci_In _ _ _ _ Hf) as [Hin0 _].
+        assert (setattr_key st name = cn0) as Hkey.
+        { unfold setattr_key. rewrite (find_real_name_opt opts defaults st m name cn0 k0 R Hf).
+          exact (find_real_name_canon opts defaults opts_nodup st m cn0 k0 R Hin0). }
+        cbn [spec_check spec_check_gen] in Hchk. rewrite Hf in Hchk. apply andb_true_iff in Hchk as [_ Hchk].
+        cbn [spec_next spec_next_gen] in M1. rewrite Hf in M1.
+        cbn [mon_step mon_step_gen] in M2. rewrite Hf in M2.
+        cbn [m_step_base m_step_gen] in E. unfold T', spec_touch. rewrite Hf, Hkey.
+        destruct (m_setattr st name v) as [s1|e|] eqn:Es; [| |discriminate]; inversion E; subst st1 ob; cbn [o_res] in Hchk, Er;
+          inversion Er; subst r; destruct (spec_validate k0 v) as [iv|] eqn:Ev; try discriminate Hchk.
+        + destruct (setattr_frame _ _ _ _ Es) as [Hcfg Hus]. rewrite Hkey in Hus. cbn [m_det] in M2.
+          split; [|reflexivity]. constructor.
+          * intros cn iv0 k Hs Hin Hm. cbn [mem_bytes] in Hm. apply orb_false_iff in Hm as [Hne Hm].
+            assert (cn0 <> cn) as Hne' by (intros ->; rewrite beqb_refl in Hne; discriminate).
+            pose proof (Hun cn iv0 k Hs Hin Hm) as X. rewrite M1. cbn [s_pend]. rewrite dget_dset_other by assumption.
+            rewrite Hcfg, (Hus cn) by congruence. exact X.
+          * intros cn Hs. rewrite M1. cbn [s_pend]. apply dmem_dset_mono. now apply Hmono.
+          * intros cn s0 Hs. rewrite M2. cbn [mem_bytes]. rewrite (Hdet cn s0 Hs). apply orb_true_r.
+        + split; [|reflexivity]. cbn [m_det] in M2. constructor; rewrite ?M1, ?M2; assumption.
+      - (* in-place operation *)
+        cbn [op_ok_base op_ok_gen] in Hok. destruct (dfind_ci name opts) as [[cn0 k0]|] eqn:Hf; [|discriminate].
+        destruct (dfind_ci_In _ _ _ _ Hf) as [Hin0 _].
+        pose proof (find_real_name_opt opts defaults st m name cn0 k0 R Hf) as Hrn.
+        cbn [spec_next spec_next_gen] in M1. rewrite Hf in M1.
+        cbn [mon_step mon_step_gen] in M2, Hflo. rewrite Hf in M2, Hflo. cbn [m_det] in M2.
+        assert (mem_bytes cn0 (m_det m) = false) as Hnd.
+        { destruct (not_flagged _ Hflo) as [_ [F3 _]]. cbn [m_f3] in F3. now apply orb_false_iff in F3 as [_ F3]. }
+        cbn [m_step_base m_step_gen] in E.
+        assert (exists ex, m_listop st name lo = Ok (st1, ex)) as [ex El].
+        { destruct (m_listop st name lo) as [[s1 [e|]]|e|]; inversion E; eauto. }
+        pose proof (listop_frame _ _ _ _ _ El) as Hfr. rewrite Hrn in Hfr.
+        unfold T'. split; [|reflexivity].
+        assert (forall cn, cn <> cn0 -> dget cn (s_pend (m_st m1)) = dget cn (s_pend (m_st m))) as Hpo.
+        { intros cn Hne. rewrite M1. destruct (py_list_op lo (cur_list defaults (m_st m) cn0 k0)); [|reflexivity].
+          cbn [s_pend]. apply dget_dset_other. congruence. }
+        constructor.
+        + intros cn iv0 k Hs Hin Hm. pose proof (Hun cn iv0 k Hs Hin Hm) as X.
+          destruct (list_eq_dec ascii_dec cn cn0) as [->|Hne].
+          * destruct iv0 as [s0|l0]; [rewrite (Hdet cn0 s0 Hs) in Hnd; discriminate|].
+            destruct X as [l' [Xp _]].
+            assert (exists l2, dget cn0 (s_pend (m_st m1)) = Some (IList l2)) as [l2 Hp2].
+            { rewrite M1. destruct (py_list_op lo (cur_list defaults (m_st m) cn0 k0)); cbn [s_pend]; [rewrite dget_dset_same|]; eauto. }
+            destruct (r_pend _ _ _ _ R1 _ _ Hp2) as [k' [_ Hpr]]. cbn [pend_rel] in Hpr.
+            destruct Hpr as [_ [_ [[Hu [Hc _]]|[_ Hdd]]]]; [exists l2; auto|].
+            fold m1 in Hdd. rewrite M2, Hnd in Hdd. discriminate.
+          * destruct (Hfr cn Hne) as [F1 F2]. rewrite (Hpo cn Hne), F1, F2. exact X.
+        + intros cn Hs. rewrite M1. destruct (py_list_op lo (cur_list defaults (m_st m) cn0 k0)); cbn [s_pend]; [apply dmem_dset_mono|]; now apply Hmono.
+        + intros cn s0 Hs. rewrite M2. exact (Hdet cn s0 Hs).
+      - (* read *)
+        cbn [op_ok_base op_ok_gen] in Hok. destruct (dfind_ci name opts) as [[cn0 k0]|] eqn:Hf; [|discriminate].
+        cbn [m_step_base m_step_gen] in E.
+        destruct (read_opt opts defaults st m name cn0 k0 R Hf) as [v0 [Hr _]]. rewrite Hr in E. inversion E. subst st1.
+        unfold T'. split; [|reflexivity]. apply (FI_same st m); [constructor; assumption|exact M1|exact M2].
+      - (* needs_save() *)
+        cbn [m_step_base m_step_gen] in E. inversion E. subst st1.
+        unfold T'. split; [|reflexivity]. apply (FI_same st m); [constructor; assumption|exact M1|exact M2].
+    Qed.
+
+    Lemma inner_simple S sent : forall ds st m T st' rs cs out',
+      Rel opts defaults st m -> FI st m S T -> forallb simple ds = true -> forallb dop_allowed ds = true ->
+      flagged (fst (fold_left (mon_dop opts defaults None) ds (m, [S]))) = false ->
+      m_inner names st [(sent, T)] ds = Some (st', rs, cs, out') ->
+      exists T', cs = [] /\ out' = [(sent, T')] /\
+        FI st' (fst (fold_left (mon_dop opts defaults None) ds (m, [S]))) S T' /\
+        snd (fold_left (mon_dop opts defaults None) ds (m, [S])) = [S] /\
+        flight_ras opts defaults (m_st m, [S]) [T] ds = [T'].
+    Proof.
+      induction ds as [|d ds IH]; intros st m T st' rs cs out' R HFI Hsim Hal Hfl H; cbn [m_inner] in H.
+      - inversion H. subst. exists T. cbn [fold_left fst snd flight_ras].
+        split; [reflexivity|]. split; [reflexivity|]. split; [exact HFI|]. split; reflexivity.
+      - cbn [forallb] in Hsim, Hal. apply andb_true_iff in Hsim as [Hs1 Hsim]. apply andb_true_iff in Hal as [Hd Hal].
+        cbn [fold_left] in Hfl |- *.
+        assert (flagged (fst (mon_dop opts defaults None (m, [S]) d)) = false) as Hfl1.
+        { destruct (flagged (fst (mon_dop opts defaults None (m, [S]) d))) eqn:E; [|reflexivity].
+          rewrite (fle_flagged _ _ (mon_fold_fle opts defaults None ds _) E) in Hfl. discriminate. }
+        assert (exists o, op_of_dop d = Some o) as [o Eo] by (destruct d; try discriminate Hs1; cbn; eauto).
+        rewrite Eo in H.
+        destruct (m_step_base names st o) as [[st1 ob]|] eqn:E; [|discriminate].
+        destruct (o_wrote ob); [|discriminate]. destruct (ires_of_ores (o_res ob)) as [r|] eqn:Er; [|discriminate].
+        destruct (dop_step None st m [S] d o st1 ob R Hd Eo Hfl1 E) as [_ [R1 [Hms [Hq _]]]].
+        destruct (FI_step st m S T d o st1 ob r R HFI Hs1 Hd Eo Hfl1 E Er) as [HFI1 HT].
+        set (T1 := match d, r with DAssign name _, IOk => setattr_key st name :: T | _, _ => T end) in *.
+        assert (match d, r with
+                | DAssign name _, IOk => map (fun x : sent_t * list bytes => (fst x, setattr_key st name :: snd x)) [(sent, T)]
+                | _, _ => [(sent, T)]
+                end = [(sent, T1)]) as Eout by (unfold T1; destruct d; try reflexivity; destruct r; reflexivity).
+        rewrite Eout in H.
+        destruct (mon_dop opts defaults None (m, [S]) d) as [m1 q1] eqn:Emd. cbn [fst snd] in *. subst q1.
+        destruct (m_inner names st1 [(sent, T1)] ds) as [[[[st2 rs2] cs2] out2]|] eqn:E2; [|discriminate].
+        inversion H. subst st' rs cs out'.
+        destruct (IH st1 m1 T1 st2 rs2 cs2 out2 R1 HFI1 Hsim Hal Hfl E2) as [T' [I1 [I2 [I3 [I4 I5]]]]].
+        exists T'. split; [exact I1|]. split; [exact I2|]. split; [exact I3|]. split; [exact I4|].
+        cbn [flight_ras].
+        assert (m_st m1 = spec_base opts defaults (m_st m) o) as Hst1.
+        { destruct Hms as [Hs _]. rewrite Hs, mon_step_st. destruct (plain_eqs opts defaults names o (op_of_dop_plain _ _ Eo)) as [_ [_ [_ [Q4 _]]]]. now rewrite Q4. }
+        assert (dop_next opts defaults (m_st m, [S]) d = (m_st m1, [S])) as -> by (unfold dop_next; rewrite Eo; cbn [fst snd]; now rewrite Hst1).
+        assert (match d with
+                | DAssign name v =>
+                    match dfind_ci name opts with
+                    | Some (cn, k) => match spec_validate k v with Some _ => map (cons cn) [T] | None => [T] end
+                    | None => [T]
+                    end
+                | DSave => match s_pend (fst (m_st m, [S])) with [] => [T] | _ => [T] ++ [[]] end
+                | _ => [T]
+                end = [T1]) as ->.
+        { rewrite HT. unfold spec_touch. destruct d; try discriminate Hs1; try reflexivity.
+          destruct (dfind_ci name opts) as [[cn k]|]; [|reflexivity]. destruct (spec_validate k v); reflexivity. }
+        exact I5.
+    Qed.
+
+    Lemma mem_bytes_In' k l : mem_bytes k l = true -> In k l.
+    Proof.
+      induction l as [|x l IH]; cbn [mem_bytes]; [discriminate|]. intros H. apply orb_true_iff in H as [H|H];
+        [left; now apply beqb_eq|right; now apply IH].
+    Qed.
+
+    (* model and Spec drop the same entries at the acknowledgement *)
+    Lemma acked_agrees st0 st1 m1 S T k u iv1 kk :
+      map fst (m_unsaved st0) = map fst S -> landed opts st0 S ->
+      Rel opts defaults st1 m1 -> FI st1 m1 S T ->
+      existsb (fun cn => match dget cn S, dget cn (s_pend (m_st m1)) with Some a, Some b => ival_eqb a b | _, _ => false end) T = false ->
+      (forall iv0, dget k S = Some iv0 -> In (k, kk) opts) ->
+      In (k, u) (m_unsaved st1) -> In (k, iv1) (s_pend (m_st m1)) ->
+      acked T st1 (sent_of st0) (k, u) = match dget k S with Some iv0 => ival_eqb iv0 iv1 | None => false end.
+    Proof.
+      intros Hkeys Hland R1 HFI Hamb Hopt Hu Hp.
+      pose proof (dget_first _ _ _ (r_nodup _ _ _ _ R1) Hu) as Eu.
+      pose proof (dget_first _ _ _ (pend_nodup opts defaults _ _ R1) Hp) as Ep.
+      unfold acked, sent_of. cbn [fst snd]. rewrite dget_map_val.
+      destruct (dget k S) as [iv0|] eqn:ES.
+      - assert (exists u0, dget k (m_unsaved st0) = Some u0) as [u0 Eu0].
+        { apply dget_in_keys. rewrite Hkeys. apply dget_In in ES. now apply (in_map fst) in ES. }
+        rewrite Eu0. cbv beta. cbn [fst snd]. pose proof (Hopt _ eq_refl) as Hin. pose proof (Hland k iv0 kk ES Hin) as HL.
+        destruct (mem_bytes k T) eqn:Em; cbn [negb andb].
+        + (* assigned since: it stays; its value is not the acknowledged one (else outside the envelope) *)
+          pose proof (proj1 (existsb_false_forall _ _) Hamb k (mem_bytes_In' _ _ Em)) as X. cbv beta in X.
+          rewrite ES, Ep in X. now rewrite X.
+        + pose proof (fi_un _ _ _ _ HFI k iv0 kk ES Hin Em) as HU.
+          destruct iv0 as [s0|l0].
+          * destruct HL as [a [_ [Hua _]]]. rewrite Hua in Eu0. inversion Eu0. subst u0. cbn [resolve_u].
+            destruct HU as [Hp1 _]. rewrite Ep in Hp1. inversion Hp1. subst iv1. cbn [ival_eqb]. now rewrite beqb_refl.
+          * destruct HL as [Hc0 Hu0]. rewrite Hu0 in Eu0. inversion Eu0. subst u0. cbn [resolve_u]. rewrite Hc0.
+            destruct HU as [l' [Hp1 [Hu1 Hc1]]]. rewrite Ep in Hp1. inversion Hp1. subst iv1.
+            rewrite Eu in Hu1. inversion Hu1. subst u. cbn [resolve_u]. rewrite Hc1. reflexivity.
+      - assert (dget k (m_unsaved st0) = None) as ->; [|reflexivity].
+        apply dget_not_in. rewrite Hkeys. intros Hi. destruct (dget_in_keys _ _ Hi) as [v Hv]. congruence.
+    Qed.
+
+    Lemma ack_rel st0 st1 m1 S T :
+      nodup_ci (map fst S) = true -> canonical_keys opts (pend_entries S) ->
+      has_empty_list S = false -> has_odd_list S = false ->
+      map fst (m_unsaved st0) = map fst S -> landed opts st0 S ->
+      (forall k iv0, dget k S = Some iv0 -> exists kk, In (k, kk) opts) ->
+      Rel opts defaults st1 m1 -> FI st1 m1 S T ->
+      existsb (fun cn => match dget cn S, dget cn (s_pend (m_st m1)) with Some a, Some b => ival_eqb a b | _, _ => false end) T = false ->
+      Rel opts defaults (m_ack st1 (sent_of st0, T))
+          {| m_st := answer opts None (m_st m1) S;
+             m_det := filter (fun cn => dmem cn (prune (s_pend (m_st m1)) S)) (m_det m1);
+             m_f1 := false; m_f3 := false; m_fs := m_fs m1; m_f4 := m_f4 m1 |}.
+    Proof.
+      intros HSnd HScan He Hodd Hkeys Hland Hopt R1 HFI Hamb.
+      set (P1 := s_pend (m_st m1)). set (U1 := m_unsaved st1).
+      set (g := fun p : bytes * ival => negb (match dget (fst p) S with Some iv => ival_eqb iv (snd p) | None => false end)).
+      set (f := fun ku : bytes * uval => negb (acked T st1 (sent_of st0) ku)).
+      pose proof (r_nodup _ _ _ _ R1) as HndU. pose proof (pend_nodup opts defaults _ _ R1) as HndP.
+      pose proof (r_ukeys _ _ _ _ R1) as HkUP. fold U1 in HndU, HkUP. fold P1 in HndP, HkUP.
+      assert (forall k u iv1, In (k, u) U1 -> In (k, iv1) P1 -> f (k, u) = g (k, iv1)) as Hag.
+      { intros k u iv1 Hu Hp. unfold f, g. cbn [fst snd]. f_equal.
+        destruct (dget k S) as [iv0|] eqn:ES.
+        - destruct (Hopt k iv0 ES) as [kk Hkk].
+          rewrite (acked_agrees st0 st1 m1 S T k u iv1 kk Hkeys Hland R1 HFI Hamb (fun _ _ => Hkk) Hu Hp). now rewrite ES.
+        - rewrite (acked_agrees st0 st1 m1 S T k u iv1 KStr Hkeys Hland R1 HFI Hamb (fun iv0 E => match eq_ind (dget k S) (fun o => o = Some iv0 -> False) (fun X => ltac:(congruence)) _ eq_refl E with end) Hu Hp).
+          now rewrite ES. }
+      unfold m_ack, answer. cbn [fst snd]. fold U1. fold P1. fold f.
+      change (prune P1 S) with (filter g P1).
+      apply (rel_ack_partial opts defaults opts_nodup opts_keys_ok st1 m1 S (filter f U1) (filter g P1) R1 HSnd HScan He Hodd).
+      - apply filter_keys_agree; assumption.
+      - now apply NoDup_keys_filter.
+      - intros cn iv Hp2. rewrite (dget_filter g cn P1 HndP) in Hp2. fold P1.
+        destruct (dget cn P1) as [iv1|] eqn:Ep1; [|discriminate]. destruct (g (cn, iv1)) eqn:Eg; [|discriminate]. inversion Hp2. subst iv1.
+        split; [reflexivity|]. rewrite (dget_filter f cn U1 HndU). fold U1.
+        destruct (dget_in_keys cn U1 ltac:(rewrite HkUP; apply dget_In in Ep1; now apply (in_map fst) in Ep1)) as [u Eu].
+        rewrite Eu. now rewrite (Hag cn u iv (dget_In _ _ _ Eu) (dget_In _ _ _ Ep1)), Eg.
+      - intros cn Hp2. rewrite (dget_filter g cn P1 HndP) in Hp2. rewrite (dget_filter f cn U1 HndU).
+        destruct (dget cn U1) as [u|] eqn:Eu; [|reflexivity].
+        destruct (dget_in_keys cn P1 ltac:(rewrite <- HkUP; apply dget_In in Eu; now apply (in_map fst) in Eu)) as [iv1 Ep1].
+        rewrite Ep1 in Hp2. rewrite (Hag cn u iv1 (dget_In _ _ _ Eu) (dget_In _ _ _ Ep1)).
+        destruct (g (cn, iv1)); [discriminate|reflexivity].
+      - intros cn iv0 k ES Hp2 Hin. rewrite (dget_filter g cn P1 HndP) in Hp2. fold P1.
+        assert (dmem cn P1 = true) as Hm by (apply (fi_mono _ _ _ _ HFI); unfold dmem; now rewrite ES).
+        unfold dmem in Hm. destruct (dget cn P1) as [iv1|] eqn:Ep1; [|discriminate].
+        destruct (g (cn, iv1)) eqn:Eg; [discriminate|]. unfold g in Eg. cbn [fst snd] in Eg. rewrite ES in Eg.
+        apply negb_false_iff, ival_eqb_eq in Eg. subst iv1. split; [reflexivity|].
+        destruct (mem_bytes cn T) eqn:Em.
+        + exfalso. pose proof (proj1 (existsb_false_forall _ _) Hamb cn (mem_bytes_In' _ _ Em)) as X. cbv beta in X.
+          fold P1 in X. rewrite ES, Ep1, ival_eqb_refl in X. discriminate.
+        + pose proof (fi_un _ _ _ _ HFI cn iv0 k ES Hin Em) as HU. fold P1 in HU. destruct iv0 as [s0|l0].
+          * exact (proj2 HU).
+          * destruct HU as [l' [Hp1 [Hu1 Hc1]]]. rewrite Ep1 in Hp1. inversion Hp1. subst l'. auto.
+      - intros cn ES. rewrite (dget_filter g cn P1 HndP). fold P1. destruct (dget cn P1) as [iv1|]; [|reflexivity].
+        unfold g. cbn [fst snd]. now rewrite ES.
+    Qed.
+
+    (* reads and needs_save() change nothing *)
+    Definition quiet (d : dop) : bool := match d with DRead _ | DNeedsSave => true | _ => false end.
+
+    Lemma inner_quiet rej : forall ds st m q out st' rs cs out',
+      Rel opts defaults st m -> forallb quiet ds = true -> forallb dop_allowed ds = true ->
+      m_inner names st out ds = Some (st', rs, cs, out') ->
+      st' = st /\ cs = [] /\ out' = out /\ msame m (fst (fold_left (mon_dop opts defaults rej) ds (m, q))) /\
+      snd (fold_left (mon_dop opts defaults rej) ds (m, q)) = q.
+    Proof.
+      induction ds as [|d ds IH]; intros st m q out st' rs cs out' R Hq Hal H; cbn [m_inner] in H.
+      - inversion H. subst. cbn [fold_left fst snd]. repeat split.
+      - cbn [forallb] in Hq, Hal. apply andb_true_iff in Hq as [Hq1 Hq]. apply andb_true_iff in Hal as [Hd Hal].
+        cbn [fold_left].
+        assert (exists o, op_of_dop d = Some o /\ (forall s1 ob, m_step_base names st o = Some (s1, ob) -> s1 = st) /\
+                          mon_base opts defaults m o = m) as [o [Eo [Hst Hm]]].
+        { destruct d; try discriminate Hq1; eexists; (split; [reflexivity|]); (split; [|reflexivity]).
+          - intros s1 ob E. cbn [m_step_base m_step_gen] in E. unfold dop_allowed in Hd. cbn [op_of_dop] in Hd.
+            apply andb_true_iff in Hd as [Hok _]. cbn [op_ok_base op_ok_gen] in Hok.
+            destruct (dfind_ci name opts) as [[cn k]|] eqn:Hf; [|discriminate].
+            destruct (read_opt opts defaults st m name cn k R Hf) as [v [Hr _]]. rewrite Hr in E. now inversion E.
+          - intros s1 ob E. cbn [m_step_base m_step_gen] in E. now inversion E. }
+        rewrite Eo in H. destruct (m_step_base names st o) as [[st1 ob]|] eqn:E; [|discriminate].
+        destruct (o_wrote ob); [|discriminate]. destruct (ires_of_ores (o_res ob)); [|discriminate].
+        assert (match d, i with DAssign name _, IOk => map (fun x : sent_t * list bytes => (fst x, setattr_key st name :: snd x)) out | _, _ => out end = out) as Eout
+          by (destruct d; try discriminate Hq1; reflexivity).
+        rewrite Eout in H.
+        destruct (m_inner names st1 out ds) as [[[[st2 rs2] cs2] out2]|] eqn:E2; [|discriminate]. inversion H. subst st' rs cs out'.
+        pose proof (Hst _ _ eq_refl) as ->.
+        pose proof (mon_dop_msame opts defaults rej (m, q) d o Eo) as Hms. cbn [fst] in Hms. rewrite Hm in Hms.
+        assert (snd (mon_dop opts defaults rej (m, q) d) = q) as Hq2 by (unfold mon_dop; now rewrite Eo).
+        destruct (mon_dop opts defaults rej (m, q) d) as [m1 q1]. cbn [fst snd] in *. subst q1.
+        destruct (IH st m1 q out st2 rs2 cs2 out2 (Rel_msame _ _ _ _ _ R Hms) Hq Hal E2) as [I1 [I2 [I0 [I3 I4]]]].
+        split; [exact I1|]. split; [exact I2|]. split; [exact I0|]. split; [|exact I4].
+        destruct Hms as [A1 [A2 [A3 A4]]], I3 as [B1 [B2 [B3 B4]]]. unfold msame. repeat split; congruence.
+    Qed.
+    Lemma flight_flags m rej ds :
+      flagged (mon_step opts defaults m (OpSaveDuring rej ds)) = false ->
+      flagged (fst (fold_left (mon_dop opts defaults rej) ds (mon_send rej (m, [])))) = false.
+    Proof.
+      apply fle_flagged_false. cbn [mon_step mon_step_gen]. unfold mon_flight. fle_tac.
+    Qed.
+
+    (* from save() to the moment before the answers *)
+    Lemma flight_prefix rej st m ds st0 c0 out0 st1 rs cs out :
+      Rel opts defaults st m -> forallb dop_allowed ds = true ->
+      flagged (mon_step opts defaults m (OpSaveDuring rej ds)) = false ->
+      m_send st = Some (st0, c0) -> m_inner names st0 out0 ds = Some (st1, rs, cs, out) ->
+      let mq0 := mon_send rej (m, []) in
+      let mqE := fold_left (mon_dop opts defaults rej) ds mq0 in
+      Rel opts defaults st0 (fst mq0) /\
+      (s_pend (m_st m) <> [] -> landed opts st0 (s_pend (m_st m)) /\ exists line, c0 = CLine line (sent_of st0)) /\
+      (s_pend (m_st m) = [] -> st0 = st /\ c0 = CDone) /\
+      flight_inner_ok opts defaults (m_st m, snd mq0) ds rs = true /\
+      Rel opts defaults st1 (fst mqE) /\
+      lines_ok (snd mqE) (call_lines (c0 :: cs)) = true /\
+      map (outcome rej) (c0 :: cs) = call_outcome rej (m_st m) :: flight_outs opts defaults rej (m_st m, snd mq0) ds /\
+      flagged (fst mqE) = false.
+    Proof.
+      intros R Hal Hfl E0 E1 mq0 mqE. apply flight_flags in Hfl. fold mq0 in Hfl. fold mqE in Hfl.
+      assert (flagged (fst mq0) = false) as Hfl0.
+      { destruct (flagged (fst mq0)) eqn:E; [|reflexivity].
+        unfold mqE in Hfl. rewrite (fle_flagged _ _ (mon_fold_fle opts defaults rej ds _) E) in Hfl. discriminate. }
+      assert (has_empty_list (s_pend (m_st m)) = false) as Hne.
+      { destruct (not_flagged _ Hfl0) as [F1 _]. unfold mq0, mon_send in F1. cbn [fst] in F1.
+        destruct (s_pend (m_st m)) as [|p0 pe]; [reflexivity|]. cbn [fst m_f1] in F1. now apply orb_false_iff in F1 as [_ F1]. }
+      pose proof (sim_send opts defaults opts_nodup opts_keys_ok st m st0 c0 R E0 Hne) as Hsend.
+      assert (m_st (fst mq0) = m_st m) as Hst0 by (unfold mq0; apply (mon_send_st rej (m, []))).
+      assert (Rel opts defaults st0 (fst mq0) /\
+              (s_pend (m_st m) <> [] -> landed opts st0 (s_pend (m_st m)) /\ exists line, c0 = CLine line (sent_of st0)) /\
+              (s_pend (m_st m) = [] -> st0 = st /\ c0 = CDone) /\
+              lines_ok (snd mq0) (call_lines [c0]) = true /\
+              outcome rej c0 = call_outcome rej (m_st m)) as [R0 [HL [HN [Hl0 Ho0]]]].
+      { unfold mq0, mon_send, call_outcome in *. cbn [fst snd] in *.
+        destruct (s_pend (m_st m)) as [|p0 pe] eqn:Ep.
+        - destruct Hsend as [-> ->]. split; [exact R|]. split; [intros X; congruence|]. repeat split; reflexivity.
+        - destruct Hsend as [line [-> [Hparse [R1 [Hland _]]]]].
+          destruct (not_flagged _ Hfl0) as [F1 [F3 _]]. cbn [fst m_f1 m_f3] in F1, F3. apply orb_false_iff in F1 as [F1 _].
+          split; [rewrite F1, F3, Hne; cbn [orb]; eapply Rel_flags_irrel; exact R1|].
+          split; [intros _; split; [exact Hland|eauto]|]. split; [discriminate|]. split; [|reflexivity].
+          cbn [snd call_lines map concat app lines_ok]. rewrite Hparse.
+          rewrite (entries_match_self _ (eq_ind_r (fun l => nodup_ci (map fst l) = true) (pend_nodup_ci opts defaults opts_nodup _ _ R) (eq_sym Ep))).
+          reflexivity. }
+      destruct mq0 as [m0 q0] eqn:Emq0. cbn [fst snd] in *.
+      destruct (sim_inner rej ds st0 m0 q0 out0 st1 rs cs out R0 Hal Hfl E1) as [I1 [I2 [[qn [I3 I3']] I4]]].
+      rewrite Hst0 in I1, I4.
+      split; [exact R0|]. split; [exact HL|]. split; [exact HN|]. split; [exact I1|]. split; [exact I2|].
+      split; [|split; [|exact Hfl]].
+      - unfold mqE. rewrite I3. clear - Hl0 I3'. cbn [call_lines map concat] in *.
+        destruct c0; cbn [app] in *.
+        + destruct q0; [exact I3'|discriminate Hl0].
+        + destruct q0 as [|s0 [|s1 q0]]; cbn [lines_ok app] in *; try discriminate Hl0.
+          * apply andb_true_iff in Hl0 as [Hl0 _]. now rewrite Hl0.
+          * apply andb_true_iff in Hl0 as [_ Hl0]. discriminate Hl0.
+      - cbn [map]. now rewrite Ho0, I4.
+    Qed.
+    Lemma answers_reject c q : forall st, fold_left (answer opts (Some c)) q st = st.
+    Proof. induction q as [|x q IH]; intros st; [reflexivity|]. cbn [fold_left answer]. apply IH. Qed.
+
+    Lemma sres_list_refl l : list_eqb sres_eqb l l = true.
+    Proof. induction l as [|x l IH]; [reflexivity|]. cbn. rewrite IH. destruct x; cbn; rewrite ?N.eqb_refl; reflexivity. Qed.
+
+    Lemma ns_agree st m : Rel opts defaults st m ->
+      match m_unsaved st with [] => false | _ :: _ => true end = negb (is_nil (s_pend (m_st m))).
+    Proof.
+      intros R. pose proof (r_ukeys _ _ _ _ R) as Hk.
+      destruct (m_unsaved st), (s_pend (m_st m)); cbn in Hk; try discriminate; reflexivity.
+    Qed.
+
+    (* the judgement of the whole OpSaveDuring from its parts *)
+    Lemma flight_check_intro m rej ds rs cs0 ns snap mF :
+      m_st mF = flight_next opts defaults (m_st m) rej ds ->
+      flight_inner_ok opts defaults (m_st m, flight_send (m_st m) []) ds rs = true ->
+      lines_ok (snd (flight_run opts defaults (m_st m) ds)) (call_lines cs0) = true ->
+      map (outcome rej) cs0 = call_outcome rej (m_st m) :: flight_outs opts defaults rej (m_st m, flight_send (m_st m) []) ds ->
+      ns = negb (is_nil (s_pend (m_st mF))) ->
+      snap_ok opts defaults (m_st mF) opts snap = true ->
+      spec_check opts defaults (m_st m) (OpSaveDuring rej ds)
+        {| o_wrote := call_lines cs0; o_res := XFlight rs (map (outcome rej) cs0) ns snap |} = true.
+    Proof.
+      intros E H1 H2 H3 H4 H5. cbn [spec_check spec_check_gen]. unfold flight_check. cbn [o_res o_wrote].
+      rewrite <- E, H1, H2, H3, sres_list_refl, <- H4, H5, eqb_reflx. reflexivity.
+    Qed.
+    Definition flight_provable (rej : option N) (ds : list dop) : bool :=
+      match rej with Some _ => true | None => forallb simple ds end.
+
+    Lemma lines_ok_nil q : lines_ok q [] = true -> q = [].
+    Proof. destruct q; [reflexivity|discriminate]. Qed.
+
+    (* without a second save() nothing new is outstanding *)
+    Lemma inner_nosave : forall ds st st' rs cs out',
+      forallb simple ds = true -> m_inner names st [] ds = Some (st', rs, cs, out') -> cs = [] /\ out' = [].
+    Proof.
+      induction ds as [|d ds IH]; intros st st' rs cs out' Hs H; cbn [m_inner] in H; [inversion H; auto|].
+      cbn [forallb] in Hs. apply andb_true_iff in Hs as [Hs1 Hs].
+      destruct (op_of_dop d) as [o|] eqn:Eo; [|destruct d; discriminate].
+      destruct (m_step_base names st o) as [[st1 ob]|]; [|discriminate].
+      destruct (o_wrote ob); [|discriminate]. destruct (ires_of_ores (o_res ob)) as [r|]; [|discriminate].
+      assert (match d, r with DAssign name _, IOk => map (fun x : sent_t * list bytes => (fst x, setattr_key st name :: snd x)) [] | _, _ => [] end
+              = @nil (sent_t * list bytes)) as E by (destruct d; try reflexivity; destruct r; reflexivity).
+      rewrite E in H. destruct (m_inner names st1 [] ds) as [[[[st2 rs2] cs2] out2]|] eqn:E2; [|discriminate].
+      inversion H. subst. exact (IH _ _ _ _ _ Hs E2).
+    Qed.
+
+    (* right after save() everything that was sent is untouched *)
+    Lemma FI_init st0 m0 S :
+      NoDup (map fst S) -> s_pend (m_st m0) = S -> m_det m0 = scalar_keys S -> landed opts st0 S -> FI st0 m0 S [].
+    Proof.
+      intros Hnd Hp Hd Hland. constructor.
+      - intros cn iv k ES Hin _. pose proof (Hland cn iv k ES Hin) as X. rewrite Hp. destruct iv as [s0|l].
+        + split; [exact ES|exact X].
+        + exists l. destruct X as [X1 X2]. auto.
+      - intros cn Hm. now rewrite Hp.
+      - intros cn s0 ES. rewrite Hd. exact (mem_scalar_keys S cn (IScalar s0) Hnd ES).
+    Qed.
+
+    Lemma sim_flight st m rej ds st' ob :
+      Rel opts defaults st m -> forallb dop_allowed ds = true -> flight_provable rej ds = true ->
+      flagged (mon_step opts defaults m (OpSaveDuring rej ds)) = false ->
+      m_step names st (OpSaveDuring rej ds) = Some (st', ob) ->
+      step_ok opts defaults st m (OpSaveDuring rej ds) st' ob.
+    Proof.
+      intros R Hal Hprov Hfl H. cbn [m_step m_step_gen] in H. unfold m_flight in H.
+      destruct (m_send st) as [[st0 c0]|] eqn:E0; [|discriminate].
+      match type of H with match m_inner names st0 ?o0 ds with _ => _ end = _ => set (out0 := o0) in * end.
+      destruct (m_inner names st0 out0 ds) as [[[[st1 rs] cs] out]|] eqn:E1; [|discriminate].
+      destruct (flight_prefix rej st m ds st0 c0 out0 st1 rs cs out R Hal Hfl E0 E1) as [R0 [HL [HN [I1 [RE [Hlines [Houts HflE]]]]]]].
+      set (mq0 := mon_send rej (m, [])) in *.
+      set (mqE := fold_left (mon_dop opts defaults rej) ds mq0) in *.
+      set (mF := mon_step opts defaults m (OpSaveDuring rej ds)) in *.
+      destruct (mon_send_st rej (m, [])) as [S1 S2]. fold mq0 in S1, S2. cbn [fst snd] in S1, S2.
+      destruct (mon_fold_st opts defaults rej ds mq0) as [F1 F2]. fold mqE in F1, F2. rewrite S1, S2 in F1, F2.
+      fold (flight_run opts defaults (m_st m) ds) in F1, F2.
+      rewrite S2 in I1, Houts. rewrite F2 in Hlines.
+      assert (m_st mF = flight_next opts defaults (m_st m) rej ds) as HstF by apply mon_step_st.
+      (* the state after the answers, related to the monitor after the whole operation *)
+      assert (Rel opts defaults (match rej with None => fold_left m_ack out st1 | Some _ => st1 end) mF) as RF.
+      { destruct rej as [c|].
+        - (* rejected: nothing changes *)
+          change (Rel opts defaults st1 mF).
+          apply (Rel_msame _ _ _ _ _ RE). unfold mF. cbn [mon_step mon_step_gen]. unfold mon_flight. fold mq0. fold mqE.
+          cbn [accepted andb]. unfold msame. cbn [m_st m_det m_f1 m_f3]. rewrite answers_reject. repeat split.
+        - (* acknowledged: reads, needs_save(), assignments and in-place edits happened in between *)
+          cbn [flight_provable] in Hprov.
+          unfold mF. cbn [mon_step mon_step_gen]. unfold mon_flight. fold mq0. fold mqE. cbn [accepted andb].
+          destruct (s_pend (m_st m)) as [|p0 pe] eqn:Ep.
+          + (* nothing was pending: no SETCONF, no answer *)
+            destruct (HN eq_refl) as [-> ->]. unfold out0 in *.
+            destruct (inner_nosave ds st st1 rs cs out Hprov E1) as [-> ->]. cbn [fold_left].
+            assert (snd mqE = []) as Eq0 by (rewrite F2; apply lines_ok_nil; exact Hlines).
+            rewrite Eq0. cbn [is_nil negb fold_left]. apply (Rel_msame _ _ _ _ _ RE).
+            unfold msame. cbn [m_st m_det m_f1 m_f3]. repeat split.
+          + destruct (HL ltac:(discriminate)) as [Hland [line Ec0]]. subst c0. unfold out0 in *.
+            assert (snd mq0 = [p0 :: pe]) as Eq0 by (rewrite S2; unfold flight_send; now rewrite Ep).
+            assert (mq0 = (fst mq0, [p0 :: pe])) as Emq0 by (rewrite <- Eq0; apply surjective_pairing).
+            assert (m_det (fst mq0) = scalar_keys (p0 :: pe)) as Hdet0 by (unfold mq0, mon_send; cbn [fst]; now rewrite Ep).
+            pose proof (pend_nodup opts defaults _ _ R) as HndS. rewrite Ep in HndS.
+            pose proof (FI_init st0 (fst mq0) (p0 :: pe) HndS (eq_trans (f_equal s_pend S1) Ep) Hdet0 Hland) as HFI0.
+            unfold mqE in *. rewrite Emq0 in *.
+            destruct (inner_simple (p0 :: pe) (sent_of st0) ds st0 (fst mq0) [] st1 rs cs out R0 HFI0 Hprov Hal HflE E1)
+              as [T' [-> [-> [HFI1 [Hq Hras]]]]].
+            rewrite Hq. cbn [is_nil negb fold_left].
+            destruct (not_flagged _ HflE) as [G1 [G3 _]]. rewrite G1, G3.
+            assert (has_empty_list (p0 :: pe) = false /\ has_odd_list (p0 :: pe) = false) as [He Ho].
+            { destruct (not_flagged _ (fle_flagged_false _ _ (mon_fold_fle opts defaults None ds (fst mq0, [p0 :: pe])) HflE)) as [K1 [_ [_ K4]]].
+              unfold mq0, mon_send in K1, K4. cbn [fst] in K1, K4. rewrite Ep in K1, K4. cbn [fst m_f1 m_f4 accepted andb] in K1, K4.
+              apply orb_false_iff in K1 as [_ K1]. apply orb_false_iff in K4 as [_ K4]. auto. }
+            (* the envelope: no option assigned again that ends up with the acknowledged value *)
+            assert (existsb (fun cn => match dget cn (p0 :: pe), dget cn (s_pend (m_st (fst (fold_left (mon_dop opts defaults None) ds (fst mq0, [p0 :: pe]))))) with
+                                       | Some a, Some b => ival_eqb a b | _, _ => false end) T' = false) as Hamb.
+            { destruct (not_flagged _ Hfl) as [_ [_ [Fs _]]]. unfold mF in Fs. cbn [mon_step mon_step_gen] in Fs.
+              unfold mon_flight in Fs. cbn [m_fs accepted andb] in Fs. apply orb_false_iff in Fs as [_ Fs].
+              unfold flight_ambiguous in Fs. rewrite <- F1, <- F2 in Fs. rewrite Hq in Fs.
+              unfold flight_send in Fs. rewrite Ep in Fs. cbn [app map] in Fs.
+              cbn [fst] in S1. rewrite S1 in Hras. rewrite Hras in Fs. cbn [ambiguous_acks] in Fs. now apply orb_false_iff in Fs as [Fs _]. }
+            set (mE1 := fst (fold_left (mon_dop opts defaults None) ds (fst mq0, [p0 :: pe]))) in *.
+            pose proof (ack_rel st0 st1 mE1 (p0 :: pe) T'
+                          (eq_ind _ (fun l => nodup_ci (map fst l) = true) (pend_nodup_ci opts defaults opts_nodup _ _ R) _ Ep)
+                          (eq_ind _ (fun l => canonical_keys opts (pend_entries l)) (canonical_pend_entries opts defaults _ _ R) _ Ep)
+                          He Ho) as Hack.
+            eapply Rel_flags_irrel. apply Hack; try assumption.
+            * rewrite (r_ukeys _ _ _ _ R0), S1, Ep. reflexivity.
+            * intros k iv0 Hk. apply (pend_keys_opts opts defaults st m k R). rewrite Ep.
+              apply dget_In in Hk. now apply (in_map fst) in Hk. }
+      match type of H with match m_snapshot ?s _ with _ => _ end = _ => set (st2 := s) in * end.
+      destruct (snapshot_sim opts defaults opts_nodup st2 mF opts RF (fun c k0 Hc => Hc)) as [snap [Hs Hok]].
+      rewrite <- names_eq in Hs. rewrite Hs in H. inversion H. subst st' ob. clear H.
+      split; [|exact RF].
+      apply (flight_check_intro m rej ds rs (c0 :: cs) _ snap mF HstF I1 Hlines Houts); [|exact Hok].
+      exact (ns_agree _ _ RF).
+    Qed.
+  End Flight.
+
+  (* which OpSaveDuring are covered by the proof: every rejected one; an acknowledged one whose
+     intermediate operations are reads, needs_save(), assignments and in-place edits (no second
+     save(), no event) *)
+  Definition op_provable (o : op) : bool :=
+    match o with OpSaveDuring rej ds => flight_provable rej ds | _ => true end.
+
+  (* the operations of an OpSaveDuring are in the envelope like the ordinary operations they are *)
+  Lemma flight_allowed (allowed : op -> bool) rej ds :
+    op_ok opts (OpSaveDuring rej ds) = true ->
+    forallb (fun d => match op_of_dop d with Some o => allowed o | None => true end) ds = true ->
+    forallb (dop_allowed allowed) ds = true.
+  Proof.
+    intros Hok Hal. cbn [op_ok op_ok_gen] in Hok. apply andb_true_iff in Hok as [_ Hok].
+    apply forallb_forall. intros d Hd. unfold dop_allowed.
+    pose proof (proj1 (forallb_forall _ _) Hok d Hd) as X. pose proof (proj1 (forallb_forall _ _) Hal d Hd) as Y.
+    cbv beta in X, Y. destruct (op_of_dop d); [now rewrite X, Y|reflexivity].
+  Qed.
+
+  Lemma c10_flight_allowed rej ds : c10_op (OpSaveDuring rej ds) = true ->
+    forallb (fun d => match op_of_dop d with Some o => c10_op o | None => true end) ds = true.
+  Proof.
+    cbn [c10_op]. intros H. apply forallb_forall. intros d Hd.
+    pose proof (proj1 (forallb_forall _ _) H d Hd) as X. destruct d; try reflexivity. discriminate X.
+  Qed.
+
+  Lemma sim_step st m o st' ob :
+    Rel opts defaults st m -> op_ok opts o = true -> c10_op o = true -> op_provable o = true ->
+    flagged (mon_step opts defaults m o) = false ->
+    m_step names st o = Some (st', ob) ->
+    step_ok opts defaults st m o st' ob.
+  Proof.
+    intros R Hok Hc Hpr Hfl H. destruct (plain o) eqn:Hpl; [now apply sim_step_base|].
+    destruct o; try discriminate Hpl. cbn [op_provable] in Hpr.
+    apply (sim_flight c10_op (fun s m0 o0 s' ob0 R0 Hok0 Hc0 Hpl0 Hfl0 H0 => sim_step_base s m0 o0 s' ob0 R0 Hok0 Hc0 Hpl0 Hfl0 H0));
+      try assumption.
+    apply (flight_allowed c10_op reject during Hok). now apply (c10_flight_allowed reject).
+  Qed.
+
   Theorem sim_run : forall ops st m tr,
     Rel opts defaults st m ->
-    forallb (op_ok opts) ops = true -> forallb c10_op ops = true ->
+    forallb (op_ok opts) ops = true -> forallb c10_op ops = true -> forallb op_provable ops = true ->
     flagged (mon_run opts defaults m ops) = false ->
     m_run names st ops = Some tr ->
     spec_run opts defaults (m_st m) ops tr = true.
   Proof.
-    induction ops as [|o ops IH]; intros st m tr R Hok Hc Hfl H; cbn [m_run] in H.
+    induction ops as [|o ops IH]; intros st m tr R Hok Hc Hpr Hfl H; cbn [m_run] in H.
     - inversion H. reflexivity.
     - destruct (m_step names st o) as [[st1 ob]|] eqn:E; [|discriminate].
       destruct (m_run names st1 ops) as [tr'|] eqn:E2; [|discriminate]. inversion H. subst tr.
-      cbn [forallb] in Hok, Hc. apply andb_true_iff in Hok as [Hok1 Hok2]. apply andb_true_iff in Hc as [Hc1 Hc2].
+      cbn [forallb] in Hok, Hc, Hpr. apply andb_true_iff in Hok as [Hok1 Hok2]. apply andb_true_iff in Hc as [Hc1 Hc2].
+      apply andb_true_iff in Hpr as [Hpr1 Hpr2].
       unfold mon_run in Hfl. cbn [fold_left] in Hfl. fold (mon_run opts defaults (mon_step opts defaults m o) ops) in Hfl.
       assert (flagged (mon_step opts defaults m o) = false) as Hfl1.
       { destruct (flagged (mon_step opts defaults m o)) eqn:Ef; [|reflexivity].
         rewrite (mon_run_flag_mono _ _ _ _ Ef) in Hfl. discriminate. }
-      destruct (sim_step _ _ _ _ _ R Hok1 Hc1 Hfl1 E) as [Hchk R1].
+      destruct (sim_step _ _ _ _ _ R Hok1 Hc1 Hpr1 Hfl1 E) as [Hchk R1].
       cbn [spec_run]. rewrite Hchk. cbn [andb]. rewrite <- mon_step_st. eapply IH; eassumption.
   Qed.
 End SimRun.
@@ -155,19 +1045,24 @@ Proof. reflexivity. Qed.
 
 (* THE theorem: the model satisfies the Spec oracle on every C10 history outside the finding
    classes, started from a state synchronised with Tor's store *)
+(* hypothesis of the proved theorems about OpSaveDuring: an ACKNOWLEDGED one contains no second save()
+   and no event (those are decided by the oracle on the correspondence run only); reads, needs_save(),
+   assignments and in-place edits in between are covered, and rejected ones are unrestricted *)
+Definition flights_provable (i : cfg_input) : bool := forallb op_provable (i_ops i).
+
 Theorem oracle_from_synced i st tr :
-  c10_scope i = true -> c10_known i = false ->
+  c10_scope i = true -> c10_known i = false -> flights_provable i = true ->
   Rel (options (i_table i)) (i_defaults i) st (mon0 i) ->
   m_run (option_names i) st (i_ops i) = Some tr ->
   Spec.C10.oracle i tr = true.
 Proof.
-  intros Hs Hk R H. unfold c10_scope in Hs. apply andb_true_iff in Hs as [Hs Hcp]. apply negb_true_iff in Hcp.
+  intros Hs Hk Hpr R H. unfold c10_scope in Hs. apply andb_true_iff in Hs as [Hs Hcp]. apply negb_true_iff in Hcp.
   apply andb_true_iff in Hs as [Hin Hc10].
   unfold in_scope in Hin. apply andb_true_iff in Hin as [Hin Hops]. apply andb_true_iff in Hin as [Hin _].
   apply andb_true_iff in Hin as [Hin _]. apply andb_true_iff in Hin as [Htab _].
   unfold Spec.C10.oracle, cfg_oracle, worlds. cbn [existsb]. rewrite orb_false_r. apply orb_true_iff. right.
   unfold cfg_oracle_from.
   apply (sim_run (options (i_table i)) (i_defaults i) (in_opts_nodup i Htab) (in_opts_not_hs i Htab) (in_opts_keys_ok i Htab)
-                 (option_names i) eq_refl (i_ops i) st (mon0 i) tr R Hops Hc10); [|exact H].
+                 (option_names i) eq_refl (i_ops i) st (mon0 i) tr R Hops Hc10 Hpr); [|exact H].
   change (flagged (mon_of i) = false). rewrite c10_known_flagged, Hk, Hcp. reflexivity.
 Qed.
